@@ -67,8 +67,12 @@ def ccase_term(c):
     evs = []
     for e in c["events"]:
         k = e["k"]
-        ce = {"resource": "(CRegisterResource %s)" % coq_hex(hexs(e.get("res", ""))), "lost": "CConnLost", "reconnect": "CReconnect"}[k]
-        evs.append("(%s, %s)" % (ce, coq_list([req_term(s) for s in (e.get("sent") or [])])))
+        addr = coq_hex(hexs(e.get("addr", "")))
+        ce = {"resource": "(CRegisterResource %s)" % coq_hex(hexs(e.get("res", ""))),
+              "lost": "(CConnLost %s)" % ("true" if e.get("by_peer") else "false"),
+              "reconnect": "(CReconnect %s)" % addr}[k]
+        evs.append("(%s, {| co_sent := %s; co_addr := %s; co_per := %d; co_all := %d |})" % (
+            ce, coq_list([req_term(s) for s in (e.get("sent") or [])]), addr, e.get("per", 0), e.get("all", 0)))
     return "(CCase %s)" % coq_list(evs)
 
 
@@ -201,7 +205,8 @@ def run(chk, only=None, seed=None):
     if ccorr and not chk.violations:
         i, codes = ccorr[0]
         at = codes[0] // 10
-        chk.violation("correspondence broke: the requests written at event %d of the client history differ from the model's on_open/cstep" % at,
+        what = "the requests written" if codes[0] % 10 == 3 else "the session manager's per-address / registry counts"
+        chk.violation("correspondence broke: %s at event %d of the client history differ from the model's cstep" % (what, at),
                       {"client_history": client[i]["events"][:at + 1], "correspondence": "Remoting/LbCases.v ctrack", "seed": seed}, False)
     if not proof["ok"] and not chk.violations:
         chk.violation("a proof obligation of C19 no longer checks", {"theorem": PROP_FILE, "coq_output": proof["out"][-1500:]}, False)
